@@ -23,7 +23,7 @@ ASSUMPTIONS = [
     'UNSPEC for everything else)',
 ]
 REQUIRED = {'deliveries': 20000, 'direct': 10000, 'nested_ops': 1000, 'slot_deliveries': 100, 'queued_cb_runs': 500}
-FEATS = {'cascade', 'queued', 'unwatch', 'rewatch', 'update', 'trigger', 'slots', 'cb_unwatch'}
+FEATS = {'cascade', 'queued', 'unwatch', 'rewatch', 'update', 'trigger', 'slots', 'cb_unwatch', 'twins'}
 
 _st = {}
 
@@ -41,6 +41,13 @@ def run_case(idx, rng, P, rep, feats=None, prop='C03'):
         # dedicated cases for the known finding: callbacks assign while running under trigger (simple configs only)
         feats = (feats - {'queued', 'cb_unwatch'}) | {'trigger_cascade'}
         rep.count('trigger_cascade_cases')
+    if 'trigger_cascade' not in feats and rng.random() < 0.1:
+        # equal twin watchers (the same callback subscribed twice): only in runs without queued callbacks, where
+        # attributing a call to one of the twins is unambiguous
+        feats = (feats - {'queued'}) | {'twins'}
+        rep.count('twin_cases')
+    else:
+        feats = feats - {'twins'}
     r = dispatch.Run(param, rng, feats, idx=idx, level=level)
     r.run()
     for k, v in r.stats.items():
